@@ -119,7 +119,7 @@ def systematic_cases(rng, thorough):
     k = 0
     for n in range(1, 5):
         for failpos in [None] + list(range(n)):
-            for nreq in range(0, 4 if thorough else 3):
+            for nreq in range(0, 4):
                 for missing in itertools.product([False, True], repeat=nreq):
                     out.append(planned_case(rng, k, n, failpos, list(missing)))
                     k += 1
@@ -601,8 +601,8 @@ def xtb_oracle(rng):
 # ------------------------------------------------------------------ check
 def run(ctx, rep):
     import molli.pipeline as P
-    rep.rule = ("(ii) run_local: command lists of length 1..4 x each first-failure position (or none) x each subset of 0..2 "
-                "(thorough 0..3) requested files missing x rotating input kinds (utf-8 text, binary incl. NUL/CR/0xFF, none) x "
+    rep.rule = ("(ii) run_local: command lists of length 1..4 x each first-failure position (or none) x each subset of 0..3 "
+                "requested files missing x rotating input kinds (utf-8 text, binary incl. NUL/CR/0xFF, none) x "
                 "environment overrides, plus seeded random scripts over 11 primitives; every case is a real run_local "
                 "execution with `sh -c` commands; non-trivial = at least one command executed; distinct by the case term. "
                 "(i) binding: every order of creating/using 2..3 driver instances x declared job settings x class attributes "
@@ -618,7 +618,7 @@ def run(ctx, rep):
     # ---- (ii) run_local
     cases = systematic_cases(rng, ctx.thorough)
     nsys = len(cases)
-    cases += [random_case(rng, k) for k in range(1500 if ctx.thorough else 150)]
+    cases += [random_case(rng, k) for k in range(2500 if ctx.thorough else 300)]
     cases += edge_cases()
     via_ep = list(range(0, nsys, max(1, nsys // (48 if ctx.thorough else 12))))
     obs = execute(ctx, P, cases, "rl", via_entry_point=via_ep)
